@@ -91,6 +91,12 @@ func rvJudge(c *rvCase) string {
 	var pods []*v1.Pod
 	for i, pr := range c.PodRevs {
 		p := newStatefulSetPod(set, i)
+		if len(pr) > 1 && pr[len(pr)-1] == '!' {
+			// "rN!": the pod naming revision rN is terminating (it still exists and still names its revision)
+			pr = pr[:len(pr)-1]
+			now := metav1.Now()
+			p.DeletionTimestamp = &now
+		}
 		setPodRevision(p, pr)
 		pods = append(pods, p)
 	}
@@ -99,6 +105,9 @@ func rvJudge(c *rvCase) string {
 	terr := ssc.truncateHistory(set, pods, revs, byName[c.Current], byName[c.Update])
 	live := map[string]bool{c.Current: true, c.Update: true}
 	for _, pr := range c.PodRevs {
+		if len(pr) > 1 && pr[len(pr)-1] == '!' {
+			pr = pr[:len(pr)-1]
+		}
 		live[pr] = true
 	}
 	deleted := map[string]int{}
@@ -163,7 +172,7 @@ func TestReplayRevisions(t *testing.T) {
 	for _, revs := range cases {
 		for _, limit := range []int32{0, 1} {
 			for _, cu := range [][2]string{{"r1", "r1"}, {"r1", "r2"}, {"r3", "r3"}} {
-				for _, podRevs := range [][]string{nil, {"r2"}} {
+				for _, podRevs := range [][]string{nil, {"r2"}, {"r2!"}} {
 					if found >= 3 {
 						break
 					}
